@@ -19,6 +19,7 @@ import (
 
 	"github.com/bnb-chain/tss-lib/v2/common"
 	"github.com/bnb-chain/tss-lib/v2/crypto"
+	"github.com/bnb-chain/tss-lib/v2/tss"
 )
 
 type (
@@ -102,8 +103,14 @@ func (share *Share) Verify(ec elliptic.Curve, threshold int, vs Vs) bool {
 		new(big.Int).Mod(share.Share, ec.Params().N).Sign() == 0 || new(big.Int).Mod(share.ID, ec.Params().N).Sign() == 0 {
 		return false
 	}
+	// on a curve with a cofactor (edwards25519) a commitment may carry a component of small order; the check below does
+	// not see it whenever id^j mod q is a multiple of that order, so only elements of the prime-order subgroup are accepted
+	hasCofactor := tss.SameCurve(ec, tss.Edwards())
 	for _, vj := range vs {
 		if vj == nil || !vj.SetCurve(ec).ValidateBasic() {
+			return false
+		}
+		if hasCofactor && !vj.EightInvEight().Equals(vj) {
 			return false
 		}
 	}
